@@ -369,6 +369,7 @@ class MarkdownNormalizer(Renderer):
         self._current_inline_text: str = ""  # Track accumulated inline text for escape context
         self._in_heading: bool = False  # Track if we're rendering a heading
         self._in_table_cell: bool = False  # Track if we're rendering a table cell
+        self._emphasis_depth: int = 0  # How many (single) emphasis spans enclose the current node
         self._list_spacing: ListSpacing = list_spacing
         self._current_list_tight: bool = False  # Whether current list should render tight
         self._first_item_separator: str | None = None  # Set while rendering a list's first item
@@ -695,7 +696,15 @@ class MarkdownNormalizer(Renderer):
         return result
 
     def render_emphasis(self, element: inline.Emphasis) -> str:
-        return f"*{self.render_children(element)}*"
+        # Emphasis nested in emphasis (`*_x_*`, `***_x_***`) needs the other delimiter for the
+        # inner span: with `*` everywhere the runs of stars merge (`**x**`, `****x****`) and
+        # read as something else.
+        delimiter = "_" if self._emphasis_depth % 2 else "*"
+        self._emphasis_depth += 1
+        try:
+            return f"{delimiter}{self.render_children(element)}{delimiter}"
+        finally:
+            self._emphasis_depth -= 1
 
     def render_strong_emphasis(self, element: inline.StrongEmphasis) -> str:
         return f"**{self.render_children(element)}**"
